@@ -701,36 +701,55 @@ func (c *Ctx) checkPowerDiff() {
 			updates = append(updates, x)
 		}
 	})
-	okBoth := false
-	why := "no membership test found"
-	if lookup != nil {
-		// from the lookup block, can the loop latch be reached without a map update?
-		avoid := map[*ssa.BasicBlock]bool{}
-		for _, u := range updates {
-			if u.Block() != lookup.Block() {
-				avoid[u.Block()] = true
+	// every iteration of a loop that updates the map must update it: from the loop header no path returns to the
+	// header without passing an update (covers the comma-ok form with an update on either branch as well as
+	// the unconditional powers[k] -= p)
+	okBoth := len(updates) >= 2
+	why := "fewer than two map updates"
+	_ = lookup
+	headers := map[*ssa.BasicBlock]bool{}
+	upd := map[*ssa.BasicBlock]bool{}
+	for _, u := range updates {
+		upd[u.Block()] = true
+	}
+	for _, u := range updates {
+		var h *ssa.BasicBlock
+		for _, b := range f.Blocks {
+			if b != u.Block() && b.Dominates(u.Block()) && reachFromTo(u.Block(), b) {
+				if h == nil || h.Dominates(b) {
+					h = b
+				}
 			}
 		}
-		// successors of the membership If
-		b := lookup.Block()
-		okBoth = true
-		for _, s := range b.Succs {
-			if avoid[s] {
-				continue
+		if h == nil {
+			okBoth = false
+			why = "a map update outside a loop over a signer set"
+			continue
+		}
+		headers[h] = true
+	}
+	if len(headers) != 2 {
+		okBoth = false
+		why = sprintf("the map is updated in %d loop(s), expected one over each signer set", len(headers))
+	}
+	for h := range headers {
+		for _, s := range h.Succs {
+			if !reachFromTo(s, h) {
+				continue // loop exit
 			}
-			// walk until we come back to a block that dominates the lookup block (loop header) or exit
 			seen := map[*ssa.BasicBlock]bool{}
 			stack := []*ssa.BasicBlock{s}
 			for len(stack) > 0 {
 				x := stack[len(stack)-1]
 				stack = stack[:len(stack)-1]
-				if seen[x] || avoid[x] {
+				if seen[x] || upd[x] {
 					continue
 				}
 				seen[x] = true
-				if x.Dominates(b) && x != b {
+				if x == h {
 					okBoth = false
-					why = "a member of the argument set that is absent from the receiver set is not recorded (no map update on that branch): validators that left the set are not counted in the drift"
+					why = "a member of one of the sets is not recorded on some path (no map update on that branch): validators that left or joined the set are not counted in the drift"
+					continue
 				}
 				stack = append(stack, x.Succs...)
 			}
@@ -740,6 +759,25 @@ func (c *Ctx) checkPowerDiff() {
 	var exs []string
 	for _, u := range updates {
 		exs = append(exs, p.Expr(u.Value, 0))
+	}
+	// one loop stores +Power, every update of the other subtracts Power (from the stored value or from nothing)
+	okSigns := true
+	pos, neg := 0, 0
+	for _, ex := range exs {
+		switch {
+		case ex == "field:ExternalSigner.Power":
+			pos++
+		case ex == "-field:ExternalSigner.Power", strings.HasSuffix(ex, "-field:ExternalSigner.Power)") && !strings.Contains(ex, "+"):
+			neg++
+		default:
+			okSigns = false
+		}
+	}
+	if pos != 1 || neg < 1 {
+		okSigns = false
+	}
+	if !okSigns && okBoth {
+		why = "the map updates are not one +Power per receiver member and -Power per argument member"
 	}
 	// result: Abs(delta / float(MaxUint32))
 	okRes := false
@@ -751,7 +789,7 @@ func (c *Ctx) checkPowerDiff() {
 			}
 		}
 	})
-	r.Check(okBoth && okRes && len(updates) >= 3, "C09.freshness-trigger", "powerdiff", p.Pos(f.Pos()), "PowerDiff records members of either side and divides the summed |difference| by MaxUint32", sprintf("PowerDiff does not measure the full drift (%s; result form ok=%v; map updates=%v)", why, okRes, exs))
+	r.Check(okBoth && okRes && okSigns, "C09.freshness-trigger", "powerdiff", p.Pos(f.Pos()), "PowerDiff records members of either side and divides the summed |difference| by MaxUint32", sprintf("PowerDiff does not measure the full drift (%s; result form ok=%v; map updates=%v)", why, okRes, exs))
 }
 
 // isZeroValue recognises the zero value of an aggregate: a nil-valued constant or a load of a
